@@ -152,7 +152,13 @@ def mk_event(r, i, hostile_id=False):
         eid = "ev%d" % i
     lat = float(numpy.round(r.uniform(-90, 90), int(r.integers(0, 6))))
     lon = float(numpy.round(r.uniform(-180, 180), int(r.integers(0, 6))))
-    return (eid, ms, lat, lon, float(numpy.round(r.uniform(0, 700), 2)), float(numpy.round(r.uniform(2, 9), 2)))
+    dep, mag = float(numpy.round(r.uniform(0, 700), 2)), float(numpy.round(r.uniform(2, 9), 2))
+    z = r.uniform()
+    if z < 0.15:
+        # zero-valued fields are legitimate values (epoch instant, equator, prime meridian, surface, magnitude 0)
+        k = int(z / 0.03)
+        ms, lat, lon, dep, mag = (0 if k == 0 else ms), (0.0 if k == 1 else lat), (0.0 if k == 2 else lon), (0.0 if k == 3 else dep), (0.0 if k == 4 else mag)
+    return (eid, ms, lat, lon, dep, mag)
 
 
 def ex_encoding(ctx, cats, placeholders, header, spelling, full=True):
